@@ -348,6 +348,24 @@ fn accessor(bytes: &[u8], op: &str) -> String {
                 res(r, |el| format!("{}:{}", el.raw_data().len(), seq.verif_raw().len()))
             }
         },
+        "seq_fmt" => match seq_of(&e) {
+            None => "nc".into(),
+            Some(seq) => {
+                use std::fmt::Write as _;
+                let mut s = String::new();
+                // Display of the sequence and Debug of its iterator are the same `TLVSequence::fmt`
+                let a = write!(&mut s, "{}", seq).is_ok();
+                let mut s2 = String::new();
+                let b = write!(&mut s2, "{:?}", seq.iter()).is_ok();
+                if a != b {
+                    "ok:inconsistent".into()
+                } else if a {
+                    "ok".into()
+                } else {
+                    "e:fmt".into()
+                }
+            }
+        },
         "seq_raw_value" => match seq_of(&e) {
             None => "nc".into(),
             Some(seq) => res(seq.raw_value(), |v| hex(v)),
@@ -360,7 +378,7 @@ const ACCESSORS: &[&str] = &[
     "control", "tag", "value", "raw_value", "container_len", "i8", "u8", "i16", "u16", "i32", "u32", "i64", "u64",
     "f32", "f64", "str", "utf8", "octets", "bool", "null", "is_container", "structure", "array", "list", "container",
     "confirm_anon", "ctx", "try_ctx", "is_empty", "tree", "reencode", "reencode_iter", "fmt", "iter", "tlviter",
-    "seq_raw_value", "tlv", "total_len",
+    "seq_raw_value", "tlv", "total_len", "seq_fmt",
 ];
 
 // ------------------------------------------------------------------ stream (b): value trees
@@ -1056,7 +1074,7 @@ fn accessor_ops(r: &mut Rng, bytes: &[u8]) -> Vec<String> {
     ops
 }
 
-const RULE: &str = "#rule stream a: one byte string per case (valid encodings of random trees; truncated; every string length field replaced, same width or widened to 2/4/8 bytes, by 0, rem-1, rem, rem+1, 2^16-1, 2^32-1, 2^32, 2^63-1, 2^63, 2^64-1 and the values around the overflow point of 1+tag+8+len; byte and end-marker mutations; nesting up to 300; random typed and uniform bytes; known shapes) x every public accessor of TLVElement/TLVSequence/iterators, capped at len+2 steps; non-trivial = at least one accessor accepts and one rejects. stream w: one value tree per case (all tag forms, all integer widths at their extremes, floats by bit pattern incl. NaN payloads, UTF-8 and octet strings with 1/2/4/8-byte length fields, nulls, nesting) written by TLVWrite and by TLV::bytes_iter, decoded back with the public accessors; non-trivial = written and decoded. stream s: derived wire structures round-tripped (32 real structures incl. signed-integer fields; 45 derive shapes: tag numbering, wrappers, signed integers of every width at the bounds of every element type, float bit patterns incl. NaN payloads / signed zeros / subnormals, [T; N] arrays, bitflags with all / no / undeclared bits), then decoded from truncated / mutated / field-permuted encodings and from arrays with items removed / added. distinct = by case text";
+const RULE: &str = "#rule stream a: one byte string per case (valid encodings of random trees; truncated; every string length field replaced, same width or widened to 2/4/8 bytes, by 0, rem-1, rem, rem+1, 2^16-1, 2^32-1, 2^32, 2^63-1, 2^63, 2^64-1 and the values around the overflow point of 1+tag+8+len; byte and end-marker mutations; nesting up to 300; random typed and uniform bytes; known shapes) x every public accessor of TLVElement/TLVSequence/iterators (incl. tlv, total_len, Display/Debug of elements and sequences), capped at len+2 steps; non-trivial = at least one accessor accepts and one rejects. stream w: one value tree per case (1 in 50: a string longer than its 1- or 2-byte length field can express, which TLVWrite::tlv must refuse; otherwise all tag forms, all integer widths at their extremes, floats by bit pattern incl. NaN payloads, UTF-8 and octet strings with 1/2/4/8-byte length fields, nulls, nesting) written by TLVWrite and by TLV::bytes_iter, decoded back with the public accessors; non-trivial = written and decoded. stream s: derived wire structures round-tripped (32 real structures incl. signed-integer fields; 45 derive shapes: tag numbering, wrappers, signed integers of every width at the bounds of every element type, float bit patterns incl. NaN payloads / signed zeros / subnormals, [T; N] arrays, bitflags with all / no / undeclared bits), then decoded from truncated / mutated / field-permuted encodings and from arrays with items removed / added. distinct = by case text";
 
 pub fn gen(a: &Args) -> String {
     watchdog_start(&a.out);
